@@ -211,7 +211,7 @@ def raw_trace_text(res, c):
 
 def rule_guard(ctx):
     r = Rule('C45-GUARD', 'every emission of a trace macro (put_trace_* call or raw __Pyx_Trace* text) is dominated by a test that implies '
-             'profile or linetrace is enabled', floor=28)
+             'profile or linetrace is enabled', floor=30)
     n_fn = 0
     for m, qn, owner, fn in trace_sites(ctx):
         n_fn += 1
@@ -421,7 +421,7 @@ def check_scope_path(events, term_true, mon, where):
 
 def rule_pair(ctx):
     r = Rule('C45-PAIR', 'every function that emits a trace start event emits, on the success path exactly one return event (unless the body is a terminator) and on the error '
-             'path exactly one unwind (sys.monitoring) / return-or-unwind (legacy) event, each followed by put_trace_exit; yield/resume events bracket the emitted suspension', floor=7)
+             'path exactly one unwind (sys.monitoring) / return-or-unwind (legacy) event, each followed by put_trace_exit; yield/resume events bracket the emitted suspension', floor=8)
     n_scopes = 0
     for m, qn, owner, fn in trace_sites(ctx):
         calls = [n for n in walk_no_nested(fn) if isinstance(n, ast.Call) and isinstance(n.func, ast.Attribute)]
@@ -815,22 +815,30 @@ def rule_macros(ctx):
         if not decls:
             r.violate(name + ':undefined', 'Cython/Utility/Profile.c', 1, 'the compiler emits %s (%s) but Profile.c defines no such macro' % (name, sorted({u[1] for u in uses[name]})))
             continue
+        problems = {}
         for env in configs:
-            cfg = ' '.join('%s=%d' % (k.replace('CYTHON_', ''), env[k]) for k in CONFIG_VARS)
+            cfg = '/'.join('%s=%d' % (k.replace('CYTHON_', '').replace('USE_SYS_', ''), env[k]) for k in CONFIG_VARS)
             ar = arity(name, env)
             if len(ar) == 0:
-                r.violate('%s:undefined:%s' % (name, cfg.replace(' ', ',')), 'Cython/Utility/Profile.c', line,
-                          '%s is emitted by the compiler but has no definition in the configuration %s: a module compiled with profile/linetrace does not build there' % (name, cfg))
+                problems.setdefault(('undefined', None, None), []).append(cfg)
                 continue
             if len(ar) > 1:
-                r.violate('%s:redefined:%s' % (name, cfg.replace(' ', ',')), 'Cython/Utility/Profile.c', line, '%s is defined %d times in the configuration %s' % (name, len(ar), cfg))
+                problems.setdefault(('redefined', len(ar), None), []).append(cfg)
             for a in set(ar):
                 for u, where, uline in sorted(uses[name], key=str):
                     if u != a:
-                        r.violate('%s:arity:%s' % (name, cfg.replace(' ', ',')), 'Cython/Utility/Profile.c', line,
-                                  '%s emits %s with %s but in the configuration %s the macro takes %s: the generated C does not compile' % (
-                                      where, name, 'no argument list' if u == 'obj' else '%d argument(s)' % u, cfg,
-                                      'no argument list' if a == 'obj' else '%s argument(s)' % a))
+                        problems.setdefault(('arity', (u, where), a), []).append(cfg)
+        fmt = lambda x: 'no argument list' if x == 'obj' else '%s argument(s)' % x
+        for (kind, x, y), cfgs in sorted(problems.items(), key=str):
+            where_cfg = 'the configuration(s) %s' % ', '.join(cfgs)
+            if kind == 'undefined':
+                r.violate(name + ':undefined', 'Cython/Utility/Profile.c', line,
+                          '%s is emitted by the compiler but has no definition in %s: a module compiled with profile/linetrace does not build there' % (name, where_cfg))
+            elif kind == 'redefined':
+                r.violate(name + ':redefined', 'Cython/Utility/Profile.c', line, '%s is defined %d times in %s' % (name, x, where_cfg))
+            else:
+                r.violate(name + ':arity', 'Cython/Utility/Profile.c', line,
+                          '%s emits %s with %s but in %s the macro takes %s: the generated C does not compile' % (x[1], name, fmt(x[0]), where_cfg, fmt(y)))
     pc = cond_active(('if CYTHON_PROFILE || CYTHON_TRACE', 'if CYTHON_USE_SYS_MONITORING; else '), dict(CYTHON_PROFILE=1, CYTHON_TRACE=0, CYTHON_USE_SYS_MONITORING=1))
     r.positive_control(pc is False and cond_active(('if !CYTHON_TRACE',), dict(CYTHON_PROFILE=0, CYTHON_TRACE=0, CYTHON_USE_SYS_MONITORING=0)), 'conditional chain evaluation')
     return r
@@ -926,9 +934,14 @@ def rule_events(ctx):
                 for p, kinds in pos.items():
                     if p < len(args) and '[' in args[p]:
                         slots.append((set(kinds), set(IDX.findall(args[p])), '%s(... %s ...)' % (hname, args[p])))
+        reported = set()
         for kinds, idx, txt in slots:
             n_checked += 1
             key = 'evt:%s:%s' % (name, '+'.join(sorted(kinds)))
+            if (key, frozenset(idx)) in reported:
+                r.inst(key)
+                continue
+            reported.add((key, frozenset(idx)))
             r.inst(key, sample='%s: %s fires %s through slot %s (guard %s)' % (name, txt, sorted(kinds), sorted(idx), sorted(guard) if guard is not None else '-'))
             if idx != kinds:
                 r.violate(key, rel, d.line,
